@@ -1,6 +1,6 @@
 """C26 finding 5 (minor): the process exit status wraps modulo 256, 256 errors -> status 0."""
 import os, subprocess, sys
-SRC = os.environ.get("PYMOCA_SRC", "/tmp/hunt_C26/src")
+SRC = os.environ.get("PYMOCA_SRC", "/repo/src")
 tool = os.path.join(os.path.dirname(os.path.abspath(SRC)), "tools", "compiler.py")
 env = dict(os.environ, PYTHONPATH=SRC)
 args = ["/nonexistent/p%d.mo" % i for i in range(256)]
